@@ -2284,7 +2284,7 @@ class CodeGenerator(StructuredCodeGenerator):
 
         read_and_written = inst.get_read_variables() | inst.get_written_variables()
 
-        for variable in read_and_written:
+        for variable in sorted(read_and_written):
             # FIXME: This can fail for args of state update notification,
             # hence the try/catch.
             try:
